@@ -153,6 +153,10 @@ type Spec struct {
 	RtMinPoolExtra uint16 `json:"rt_min_pool_extra"`
 	RtValidatorSet bool   `json:"rt_validator_set"`
 	RtOwnStake     bool   `json:"rt_own_stake"`
+	// RtSlash: the runtime's slash amount for equivocation (0 = the runtime does not slash); RtMaxInMsgs: size of the
+	// runtime's incoming message queue (0 = disabled).
+	RtSlash     uint64 `json:"rt_slash"`
+	RtMaxInMsgs uint32 `json:"rt_max_in_msgs"`
 	// RtOwner: index of the entity that owns (governs) the runtime; 0 = the anchor entity.
 	RtOwner        int    `json:"rt_owner"`
 	RtStragglers   uint16 `json:"rt_stragglers"`
@@ -523,7 +527,17 @@ func BuildGenesis(spec *Spec) (*World, error) {
 			},
 			GovernanceModel: registry.GovernanceEntity,
 			Deployments:     []*registry.VersionInfo{{}},
+			Staking: registry.RuntimeStakingParameters{
+				RewardSlashEquvocationRuntimePercent: 50,
+			},
 		}
+		if spec.RtSlash > 0 {
+			rt.Staking.Slashing = map[staking.SlashReason]staking.Slash{
+				staking.SlashRuntimeEquivocation:     {Amount: q(spec.RtSlash)},
+				staking.SlashRuntimeIncorrectResults: {Amount: q(spec.RtSlash)},
+			}
+		}
+		rt.TxnScheduler.MaxInMessages = spec.RtMaxInMsgs
 		w.Runtime = rt
 		doc.Registry.Runtimes = append(doc.Registry.Runtimes, rt)
 	}
